@@ -6,13 +6,17 @@
    (literals, globals, operators, any depth) compiled and run leaves the
    operand stack pointer, every cell below it, the frame and closure stacks
    and the main context where they were ([C09_pure_expression_is_balanced],
-   from ExprTop.v).  NOT proved: that every
+   from ExprTop.v); so does every statement of the language over globals —
+   assignments, blocks, if, if/else, while, nested, however often the loops
+   run — in REPL mode and in file mode ([C09_statement_is_balanced],
+   [C09_statement_is_balanced_file_mode]).  NOT proved: that every
    statement the compiler emits is balanced on every path
    ([C09_stmt_balanced_statement], open); the check decides that part by
    reading the residue counters of the real machine after every statement and
    by loop-scaling runs, and compares the counters with the VM model. *)
 Require Import Calc.Base Calc.Bytecode Calc.Value Calc.FloatText Calc.Ast Calc.Resolve Calc.Compile
-        Calc.VM Calc.Session Calc.MemProofs Calc.ExprSem Calc.ExprVM Calc.ExprCorrect Calc.ExprTop.
+        Calc.VM Calc.Session Calc.MemProofs Calc.ExprSem Calc.ExprVM Calc.ExprCorrect Calc.ExprTop Calc.ExprAssign Calc.ExprLen Calc.ExprSession
+        Calc.StmtSem Calc.StmtVM Calc.StmtCorrect Calc.StmtTop.
 Open Scope Z_scope.
 
 (* the open statement: running a compiled top-level tree that ends with a
@@ -72,3 +76,34 @@ Proof.
   destruct Hid' as [_ I]. exact (id_ip _ _ _ _ I).
 Qed.
 Print Assumptions C09_pure_expression_is_balanced.
+
+(* statements over globals: blocks, if, if/else, while — any nesting, any number of iterations *)
+Theorem C09_statement_is_balanced : forall t s s' v c m n G' x,
+  wstmt t = true -> wfcs s -> idle v s c m ->
+  ByteCode t s = CompOk s' ->
+  ssem n (v_globals v) t = Some (G', Ok x) ->
+  exists k, forall fuel, (k < fuel)%nat ->
+    exists v' m' c', Run fuel (load_code v s') true = (v', RValue x) /\
+      assoc_get (v_mems v') (c_mid c) = Some m' /\ m_sp m' = m_sp m /\ msame (m_sp m) m m' /\
+      assoc_get (v_ctxs v') 0 = Some c' /\ c_ip c' = ncs s' /\ c_children c' = c_children c.
+Proof.
+  intros t s s' v c m n G' x Hw Hwf Hid HB HM.
+  destruct (bytecode_run_stmt t s s' v c m n G' (Ok x) Hw Hwf Hid HB HM) as [_ [k R]].
+  exists k. intros fuel Hf. destruct (R fuel) as [_ R2]. specialize (R2 Hf).
+  destruct R2 as [v' [m' (E & Hm & Hsp & Hms & _ & _ & [c' [Hc [Hip [_ Hch]]]])]].
+  exists v', m', c'. split; [exact E|]. split; [exact Hm|]. split; [exact Hsp|]. split; [exact Hms|].
+  split; [exact Hc|]. split; [exact Hip|exact Hch].
+Qed.
+Print Assumptions C09_statement_is_balanced.
+
+Theorem C09_statement_is_balanced_file_mode : forall t s s' v c m n G' x,
+  wstmt t = true -> wfcs s -> idle v s c m ->
+  ByteCodeNoStck t s = CompOk s' ->
+  ssem n (v_globals v) t = Some (G', Ok x) ->
+  exists k, forall fuel, (k < fuel)%nat -> ran_to_end v c m s' G' (Run fuel (load_code v s') false).
+Proof.
+  intros t s s' v c m n G' x Hw Hwf Hid HB HM.
+  destruct (bytecode_nostck_run_stmt t s s' v c m n G' (Ok x) Hw Hwf Hid HB HM) as [_ [k R]].
+  exists k. exact R.
+Qed.
+Print Assumptions C09_statement_is_balanced_file_mode.
